@@ -8,7 +8,7 @@ decided at the lock (no timeout); an icontract invariant keeps the length in [0,
 """
 import sys
 
-from rv import core
+from rv import core, sched
 from rv.locks import DetectingLock, WouldHang
 from rv.vclock import VClock, patched
 
@@ -81,7 +81,7 @@ def plan(tier):
             "timeout": 600 if tier == "quick" else 2400,
             "require": {"calls": 100000, "hops_judged": 20000, "ticks_in_terminal_phase": 1000, "unstarted_first_ticks": 500,
                         "timeouts_forced": 200, "error_limit_forced": 500, "renewals_refused": 500, "lock_acquisitions": 50000,
-                        "invariant_evaluations": 100000}}
+                        "invariant_evaluations": 100000, "thread_schedules": 2000, "thread_outcomes_judged": 2000}}
 
 
 def run_case(ctx, n):
@@ -99,6 +99,8 @@ def run_case(ctx, n):
             seq = [("start",)] + seq
         return drive(ctx, n, SWEEP_CFG[ci], seq)
     rng = ctx.rng(n)
+    if n % (300 if ctx.tier == "quick" else 3000) == 5:
+        return thread_case(ctx, n, rng)
     cfg = (rng.randint(1, 12), rng.randint(1, 4), rng.random() < 0.7,
            rng.choice([None, None, 1.0]), rng.choice([None, None, 5.0]))
     L = rng.randint(5, 7) if rng.random() < 0.8 else rng.randint(8, 30)
@@ -304,6 +306,105 @@ def drive(ctx, n, cfg, seq):
             ctx.nontrivial((tuple(x[2] + ">" + x[4] for x in witness["trace"] if len(x) > 4), tuple(rets)))
     if n % 6000 == 0:
         ctx.sample(witness)
+
+
+TOPS = [("tick", 1), ("tick", 2), ("record_error",), ("renew", None, True), ("trigger_apoptosis",), ("terminate",), ("start",), ("check_timeouts",)]
+
+
+def _apply(t, op):
+    k = op[0]
+    if k == "tick":
+        return t.tick(op[1])
+    if k == "renew":
+        return t.renew(op[1], reset_errors=op[2])
+    if k == "trigger_apoptosis":
+        return t.trigger_apoptosis("x")
+    return getattr(t, k)()
+
+
+def _state(t):
+    s = t.get_statistics()
+    return (t.get_phase().value, s["telomere_length"], s["operations_count"], s["error_count"], s["renewal_count"])
+
+
+def thread_case(ctx, n, rng):
+    """2-3 threads share ONE lifecycle under the line-level scheduler. Every lifecycle method is one critical section, so the
+    outcome (return values, phase, length, counters) must be producible by some sequential order of the calls — in particular a
+    tick that starts after terminate()/trigger_apoptosis() completed can never shorten or count."""
+    from operon_ai.state.telomere import Telomere
+    sched.instrument(Telomere)
+    max_ops, err_th = rng.choice([3, 6, 10]), rng.choice([1, 2, 4])
+    pre = [rng.choice([("start",), ("tick", 1), ("tick", 1), ("record_error",)]) for _ in range(rng.randint(0, 3))]
+    nthreads = rng.choice([2, 2, 3])
+    threads = [[rng.choice(TOPS) for _ in range(rng.randint(1, 2))] for _ in range(nthreads)]
+    if rng.random() < 0.5:
+        threads[0] = [("tick", 1)] + threads[0][:1]
+        threads[1] = [rng.choice([("terminate",), ("trigger_apoptosis",)])]
+    desc = {"max_operations": max_ops, "error_threshold": err_th, "setup": pre, "threads": threads}
+
+    def fresh(wrap):
+        t = Telomere(max_operations=max_ops, error_threshold=err_th, silent=True)
+        for op in pre:
+            _apply(t, op)
+        if wrap:
+            t._lock = sched.SchedLock(t._lock, "Telomere._lock")
+        return t
+
+    # sequential outcomes: every order-preserving merge on fresh objects
+    outcomes = set()
+
+    def merges(pos):
+        if all(pos[i] == len(threads[i]) for i in range(nthreads)):
+            yield []
+            return
+        for i in range(nthreads):
+            if pos[i] < len(threads[i]):
+                pos[i] += 1
+                for rest in merges(pos):
+                    yield [i] + rest
+                pos[i] -= 1
+    for order in merges([0] * nthreads):
+        t = fresh(False)
+        pos = [0] * nthreads
+        res = [[] for _ in range(nthreads)]
+        for i in order:
+            res[i].append(repr(_apply(t, threads[i][pos[i]])))
+            pos[i] += 1
+        outcomes.add((tuple(tuple(r) for r in res), _state(t)))
+
+    def one(policy, label):
+        t = fresh(True)
+        sc = sched.Scheduler(policy, watchdog_s=30.0)
+        sc.run([(lambda ops=ops: tuple(repr(_apply(t, op)) for op in ops)) for ops in threads])
+        ctx.count("thread_schedules")
+        w = dict(desc, policy=label, choices=sc.choices[:300])
+        if sc.stuck:
+            ctx.inconclusive("a schedule hit the wall-clock watchdog (not a verdict)")
+            return sc
+        if sc.deadlock:
+            ctx.violation("deadlock-under-threads", "lifecycle deadlocked: %s" % sc.deadlock, w)
+            return sc
+        if any(e is not None for e in sc.errors):
+            ctx.violation("raises-under-threads", "lifecycle call raised %r" % ([e for e in sc.errors if e is not None][0],), w)
+            return sc
+        got = (tuple(sc.results), _state(t))
+        ctx.count("thread_outcomes_judged")
+        if got not in outcomes:
+            ctx.violation("not-sequentially-equivalent", "results %s / final (phase, length, ops, errors, renewals) %s cannot be produced by any sequential order of the calls" % got,
+                          dict(w, sequential_outcomes=sorted(outcomes)[:5]))
+        if sc.switch_while_other_inside:
+            ctx.nontrivial(("threads", sc.trace_hash()))
+        return sc
+
+    base = one(sched.PreemptionPolicy({}), "pb(0)")
+    N = max(base.step, 1)
+    combos = [(s_, t_) for s_ in range(1, N + 1) for t_ in range(nthreads)]
+    if len(combos) > 200:
+        combos = rng.sample(combos, 200)
+    for (s_, t_) in combos:
+        one(sched.PreemptionPolicy({s_: t_}), "pb(1)@%d->%d" % (s_, t_))
+    for i in range(60):
+        one(sched.RandomPolicy(rng, (0.1, 0.3, 0.6)[i % 3]), "random")
 
 
 if __name__ == "__main__":
